@@ -682,10 +682,115 @@ def capture_write(ctx):
     return _emit(d)
 
 
+@rule("BACKREF-ORDERED", ["C05", "C19"], floor=4)
+def backref_ordered(ctx):
+    """start <= end in every slot of the back-reference arrays, at all times (BackReference::matches_iter subtracts
+    end - start and indexes from start; the arrays are not part of the capture state a failed sequence restores, so
+    nothing repairs a slot afterwards): the arrays are written only through set_start_backref / set_end_backref (and
+    emptied as a whole by match_at); whoever writes a start writes, on the same path and for the same group, an end
+    that is the same position or a position the group's iterator delivered from there; an end written alone is the
+    slot's own start."""
+    d = {}
+    S = "re_matcher::ReMatcher::set_start_backref"
+    E = "re_matcher::ReMatcher::set_end_backref"
+    for P in (S, E):
+        if ctx.body(P) is None:
+            return [missing(P)]
+    # who may write: index_mut / get_mut / iter_mut / last_mut .. on the two arrays only inside the two setters
+    writers = set()
+    for x in ctx.f.bodies:
+        se = None
+        for bb, t in x.calls():
+            dd, r, fn = callee(t)
+            if not r or not re.search(r"(index_mut|get_mut|iter_mut|last_mut|first_mut|swap|fill|as_mut_slice|deref_mut)$", r) or not t["args"]:
+                continue
+            se = se or ctx.senv(x)
+            a0 = strip_ver(show(se.operand(t["args"][0])))
+            if re.search(r"\.(start_backref|end_backref)\b", a0):
+                writers.add(x.path)
+    CL = "re_matcher::ReMatcher::clear_captured_groups_beyond"
+    # (clear_captured_groups_beyond may write the arrays itself under one borrow: that what it writes is end := the
+    # slot's own start is CLEAR-BEYOND's clause start_backref|at-or-after, which bears on the same properties)
+    _rec(d, "writers", {S, E} <= writers | {S, E} and writers <= {S, E, CL}, "the back-reference arrays are written element-wise outside their two setters and clear_captured_groups_beyond: %s" % sorted(writers - {S, E, CL}), None)
+    callers = {}
+    for P in (S, E):
+        for caller, bb in ctx.cg.sites.get(P, []):
+            if caller.blocks[bb].get("cleanup"):
+                continue
+            callers.setdefault(caller.path, caller)
+    _rec(d, "callers-known", bool(callers), "nobody writes the back-reference arrays", None)
+    for path, c in sorted(callers.items()):
+        ctx.body(path)
+        n_ok = True
+        why = ""
+        for p in ctx.walk(c).paths:
+            cs = [x for x in _calls(p) if x[0] in ("set_start_backref", "set_end_backref")]
+            for i, x in enumerate(cs):
+                grp = x[1][1]
+                if x[0] == "set_start_backref":
+                    later = [y for y in cs[i + 1:] if y[0] == "set_end_backref" and y[1][1] == grp]
+                    v = x[1][2]
+                    ok_ = bool(later) and (later[-1][1][2] == v or re.match(r"^Option::Some\{0: next\(a1\.\w+\) as Some\.0\}$", later[-1][1][2]) is not None and v == "Option::Some{0: a1.position}")
+                    if not ok_:
+                        n_ok = False
+                        why = "writes the start of a back-reference slot (%s) without writing an end that is that position or one delivered from it (%s): an end left behind by an earlier attempt may lie before it, and BackReference::matches_iter subtracts end - start" % (v[:50], [y[1][2][:50] for y in later])
+                else:
+                    earlier = [y for y in cs[:i] if y[0] == "set_start_backref" and y[1][1] == grp]
+                    v = x[1][2]
+                    if not earlier and not re.match(r"^(?:ReMatcher::)?start_backref\(a1, %s\)$" % re.escape(grp), v):
+                        n_ok = False
+                        why = "writes the end of a back-reference slot alone, and not the slot's own start: %s" % v[:60]
+        _rec(d, "pair|" + path, n_ok, "%s %s" % (path, why), c.loc())
+    if CL not in callers:
+        _rec(d, "pair|" + CL, CL in writers and ctx.body(CL) is not None, "clear_captured_groups_beyond neither calls the setters nor writes the arrays", None)
+    return _emit(d)
+
+
+@rule("CAPTURE-WRITERS", ["C05", "C03"], floor=3)
+def capture_writers(ctx):
+    """start <= end in every slot of the group arrays whenever both are set (ReMatcher::get_paren slices
+    search[start..end], process_matching_substring subtracts): a group start is written only by
+    CaptureGroupIterator::next, together with its end (CAPTURE-WRITE), and by match_at for group 0 after the state was
+    emptied (MATCH-AT); an end alone only for group 0 (EndProgram, match_at) or as the slot's own start
+    (clear_captured_groups_beyond, CLEAR-BEYOND); everything else that changes the arrays replaces the state as a
+    whole (capture_state / reset_state, STATE-SAVE-RESTORE)."""
+    d = {}
+    S = "re_matcher::ReMatcher::set_paren_start"
+    E = "re_matcher::ReMatcher::set_paren_end"
+    CG = "<op_capture::CaptureGroupIterator as std::iter::Iterator>::next"
+    MA = "re_matcher::ReMatcher::match_at"
+    EP = "<op_end_program::EndProgram as %s>::matches_iter" % OC
+    allowed = {S: {CG, MA}, E: {CG, MA, EP}}
+    for P, okc in allowed.items():
+        if ctx.body(P) is None:
+            return [missing(P)]
+        callers = set()
+        for caller, bb in ctx.cg.sites.get(P, []):
+            if caller.blocks[bb].get("cleanup"):
+                continue
+            callers.add(ctx.creator_root(caller.path) if "{closure" in caller.path else caller.path)
+        nm = P.split("::")[-1]
+        extra = sorted(callers - okc)
+        _rec(d, "callers|" + nm, not extra, "%s is called from %s: a start written without its end (or an end without its start) can leave start > end in a slot that get_paren slices" % (nm, extra), ctx.body(extra[0]).loc() if extra and ctx.body(extra[0]) else None)
+        _rec(d, "used|" + nm, CG in callers, "%s is no longer called by CaptureGroupIterator::next" % nm, None)
+    # group 0 only, outside the group iterator
+    for path in (MA, EP):
+        b = ctx.body(path)
+        if b is None:
+            continue
+        se = ctx.senv(b)
+        for bb, t in b.calls():
+            dd, r, fn = callee(t)
+            if r in (S, E):
+                g0 = strip_ver(show(se.operand(t["args"][1])))
+                _rec(d, "group-0|" + ("match_at" if path == MA else "EndProgram") + "|" + r.split("::")[-1], g0 == "0", "%s writes the span of group %s; outside CaptureGroupIterator::next only group 0 (the whole match) is written" % (path, g0), b.loc(bb))
+    return _emit(d)
+
+
 # ------------------------------------------------------------------ repetition iterators
 
 
-@rule("ORDER-GREEDY", ["C02", "C01", "C20"], floor=6)
+@rule("ORDER-GREEDY", ["C02", "C01", "C20", "C08", "C11"], floor=6)
 def order_greedy(ctx):
     """GreedyFixed: at most max body matches are taken from position, stepping by len; fewer than min -> nothing;
     otherwise positions are yielded from the furthest down to position+len*min in steps of len. IntStepIterator
@@ -781,7 +886,12 @@ def order_greedy(ctx):
                     _rec(d, "unamb|bounded-by-max", any(re.match(r"^lt\(uninit\(\d+\), a1\.max\)$", g) for g in gs), "the loop must stop at max iterations", ub.loc(p.blocks[-1]))
                     newv = [strip_ver(_sh(render(v))) for l, v in p.env.items() if v != ("uninit", l) and isinstance(v, tuple)]
                     _rec(d, "unamb|advance", any(v.startswith("next(matches_iter(a1.operation, a2, uninit(") and v.endswith(" as Some.0") for v in newv) and any(re.match(r"^add\(1, uninit\(\d+\)\)$", v) for v in newv), "each match must move the position to the body's end and count 1", ub.loc(p.blocks[-1]))
-    return _emit(d)
+    out = _emit(d)
+    for o in out:
+        # UnambiguousRepeat exists only as the product of an optimisation (C08), and what it takes per iteration is
+        # what its operand matches - with the operand's own notion of equality under flag i (C11)
+        o.props = ["C02", "C01", "C20", "C08", "C11"] if o.key.startswith(("unamb|", "Unambiguous|")) else ["C02", "C01", "C20"]
+    return out
 
 
 @rule("ORDER-RELUCTANT", ["C02", "C01", "C20", "C06", "C19", "C03"], floor=6)
@@ -915,6 +1025,12 @@ def repeat_iter(ctx):
         inner = r[len("ForceProgressIterator::new("):-1] if r.startswith("ForceProgressIterator::new(") and r.endswith(")") else r
         greedy = "a1.greedy" in gs
         cs = [(c[0], [_greedy_stack_canon(x) for x in c[1]]) + tuple(c[2:]) for c in _calls(p)]
+        if greedy or "!a1.greedy" in gs:
+            # every repeat iterator is handed out behind the progress guard, whatever is known about the operand
+            # statically (a back-reference is "not known" and matches nothing whenever its group is empty): without
+            # it each level of the stack offers its zero-width alternatives again and the same position is delivered
+            # once per combination - exponentially often in the remaining input
+            _rec(d, "progress-guard|%s" % ("greedy" if greedy else "reluctant"), inner != r, "the repeat's iterator is handed out without ForceProgressIterator on a path (guards %s)" % [g for g in gs if "matches_empty_string" in g][:2], loc)
         if greedy:
             _rec(d, "greedy-iterator", inner.startswith("GreedyRepeatIterator::new(a2, a1.operation, "), "greedy repeat must be driven by GreedyRepeatIterator(matcher, child, ...); found %s" % r[:80], loc)
             mb = re.search(r", (Ord::m(?:ax|in)\(.*\)|[^,()]+), a1\.min\)$", inner)
@@ -991,7 +1107,7 @@ def repeat_iter(ctx):
                 _rec(d, "greedy|pop-after-exhaustion", any(x.endswith("=None") and "next(" in x for x in g), "an iterator is popped from the greedy stack before it is exhausted", gb.loc(bb))
     out = _emit(d)
     for i_ in out:
-        if i_.key == "greedy-bound-proportional-to-input":
+        if i_.key == "greedy-bound-proportional-to-input" or i_.key.startswith("progress-guard|"):
             i_.props = ["C06"]
         elif i_.key in ("priming-stops-only-at-bound-or-failure", "greedy-bound-at-least-min", "greedy|extension-stops-only-at-bound-or-failure"):
             # a counted back-reference to an unset or empty group (`\1{2}`) matches by min iterations that consume
@@ -1159,6 +1275,7 @@ def recursion_scc(ctx):
         "parser": ({"re_compiler::ReCompiler::piece", "re_compiler::ReCompiler::parse_branch", "re_compiler::ReCompiler::parse_expr", "re_compiler::ReCompiler::parse_terminal"}, "a '(' is consumed between parse_expr entry and the recursive parse_branch call", True),
         "class": ({"re_compiler::ReCompiler::parse_character_class"}, "'-[' is consumed before the recursive call", True),
         "precondition": ({"re_program::ReProgram::add_precondition", "re_program::ReProgram::add_repeat_precondition"}, "structural on the operation tree", True),
+        "group-alternatives": ({"re_compiler::ReCompiler::alternatives_set_groups"}, "every recursive call is on a member of children() of the argument (FIXED-SINGLE-WAY predicate clause): structural on the operation tree, as deep as the pattern nests", True),
         "builder-union": ({"character_class::CharacterClassBuilder::union"}, "(list, char) swaps to the non-recursive (char, list) arm", False),
         "builder-complement": ({"character_class::CharacterClassBuilder::complement"}, "Char arm recurses on a Char: unreachable, complement() is only called on inversion-list builders (CLASS-COMPLEMENT-RECEIVER)", False),
         "builder-build": ({"character_class::CharacterClassBuilder::build"}, "Char arm recurses on a Char: unreachable, build() is only called on inversion-list builders (CLASS-COMPLEMENT-RECEIVER)", False),
